@@ -1,200 +1,201 @@
 // C08 — PBF skip flags and filters select an unmodified subsequence.
 //
 // Enumerates base files x all 8 skip-flag sets x a predicate per element kind
-// from a fixed menu (full product) x decoder counts; the oracle is the model's
-// object list filtered by kind and predicate, compared AFTER the scan finished,
-// so an object modified after it was returned is detected as well.
+// from a fixed menu (full product) x decoder counts, plus restricted products
+// for the boundary families (see the rule text in main); the oracle is the
+// model's object list filtered by kind and predicate. Every object is compared
+// when it is returned AND after the scan finished, so an object modified after
+// it was returned is detected as well.
 package main
 
 import (
+	"bytes"
+	"context"
 	"fmt"
 	"sync"
+	"sync/atomic"
+	"time"
 
 	"github.com/paulmach/osm"
 	"github.com/paulmach/osm/osmpbf"
 
 	"verif/gen/pbfgen"
-	"verif/gen/pbfrun"
 	"verif/kit"
+	"verif/props/c08/files"
 )
+
+// consumer behaviours
+const (
+	eager     = 0 // scans as fast as it can, keeps every object to the end
+	lazy      = 1 // takes one object, lets the decoders run as far ahead as the pipeline allows, scans on (again at the middle)
+	stopEarly = 2 // takes the first half of the expected objects, closes the scanner, keeps the objects
+)
+
+var consumerNames = []string{"eager", "lazy", "stop-early"}
 
 type fcase struct {
 	FileName string
 	Flags    int
-	Preds    [3]int // index into predNames for node, way, relation
+	Preds    [3]int // index into files.PredNames for node, way, relation
 	Procs    int
+	Consumer int     `json:",omitempty"`
+	Twin     *[3]int `json:",omitempty"` // a second scanner with these predicates runs at the same time on the same bytes
+	Fam      string  `json:",omitempty"`
 }
 
-var predNames = []string{"nil", "accept-all", "reject-all", "even-ids", "odd-ids", "has-tags", "fat"}
-
-// pred evaluates predicate p on the content of an element.
-func pred(p int, id int64, ntags, nchildren int) bool {
-	switch p {
-	case 0, 1:
-		return true
-	case 2:
-		return false
-	case 3:
-		return id%2 == 0
-	case 4:
-		return id%2 != 0
-	case 5:
-		return ntags > 0
-	case 6:
-		return ntags >= 2 || nchildren >= 2
+func (c fcase) String() string {
+	s := fmt.Sprintf("file=%s flags=%03b preds=%s/%s/%s procs=%d", c.FileName, c.Flags,
+		files.PredNames[c.Preds[0]], files.PredNames[c.Preds[1]], files.PredNames[c.Preds[2]], c.Procs)
+	if c.Consumer != 0 {
+		s += " consumer=" + consumerNames[c.Consumer]
 	}
-	panic("bad predicate")
+	if c.Twin != nil {
+		s += fmt.Sprintf(" twin=%s/%s/%s", files.PredNames[c.Twin[0]], files.PredNames[c.Twin[1]], files.PredNames[c.Twin[2]])
+	}
+	return s
 }
 
-func tags(n int, seed int64) [][2]string {
-	var t [][2]string
-	for i := 0; i < n; i++ {
-		t = append(t, [2]string{fmt.Sprintf("k%d_%d", seed, i), fmt.Sprintf("v%d_%d", seed, i)})
-	}
-	return t
-}
-
-func refs(n int, seed int64) []int64 {
-	r := []int64{}
-	for i := 0; i < n; i++ {
-		r = append(r, seed*100+int64(i)*7-3)
-	}
-	return r
-}
-
-func members(n int, seed int64) []pbfgen.Member {
-	m := []pbfgen.Member{}
-	for i := 0; i < n; i++ {
-		m = append(m, pbfgen.Member{Type: i % 3, Ref: seed*10 + int64(i), Role: fmt.Sprintf("r%d", i%2)})
-	}
-	return m
-}
-
-func dnode(id int64, ntags int) pbfgen.DNode {
-	n := pbfgen.DenseNode(id, id)
-	n.Tags = tags(ntags, id)
-	return n
-}
-
-func way(id int64, ntags, nrefs int, loc, info bool) pbfgen.Way {
-	w := pbfgen.Way{ID: id, Tags: tags(ntags, id), Refs: refs(nrefs, id), NoRefs: nrefs == 0}
-	if info {
-		w.Info = pbfgen.FullInfo(id)
-	}
-	if loc && nrefs > 0 {
-		w.Lats, w.Lons = refs(nrefs, id+1), refs(nrefs, id+2)
-	}
-	return w
-}
-
-func rel(id int64, ntags, nmem int, info bool) pbfgen.Relation {
-	r := pbfgen.Relation{ID: id, Tags: tags(ntags, id), Members: members(nmem, id), NoMembers: nmem == 0}
-	if info {
-		r.Info = pbfgen.FullInfo(id)
-	}
-	return r
-}
-
-func files() (map[string]*pbfgen.File, []string) {
-	fullDense := func(ns ...pbfgen.DNode) pbfgen.Group {
-		return pbfgen.Group{Dense: &pbfgen.Dense{Info: true, Cols: pbfgen.ColsMask(63), KeysVals: true, Nodes: ns}}
-	}
-	x := &pbfgen.File{Header: pbfgen.StdHeader(), Blocks: []pbfgen.Block{
-		{Groups: []pbfgen.Group{fullDense(dnode(1, 2), dnode(2, 0), dnode(3, 3), dnode(4, 1), dnode(5, 0), dnode(6, 2), dnode(8, 0), dnode(7, 1))}},
-		{Groups: []pbfgen.Group{{Ways: []pbfgen.Way{way(10, 3, 4, true, true), way(11, 0, 0, false, true), way(12, 1, 2, false, true),
-			way(13, 2, 3, true, true), way(14, 0, 1, false, false), way(15, 1, 0, false, true), way(17, 0, 5, true, true), way(16, 2, 1, false, false)}}}},
-		{Groups: []pbfgen.Group{{Relations: []pbfgen.Relation{rel(20, 3, 3, true), rel(21, 0, 0, true), rel(22, 1, 1, true),
-			rel(23, 0, 2, false), rel(24, 2, 0, true), rel(25, 0, 4, true), rel(27, 1, 1, false), rel(26, 0, 0, false)}}}},
-	}}
-	// everything in one block, several groups per kind, a dense group without keys_vals after a tagged one
-	noKV := pbfgen.Group{Dense: &pbfgen.Dense{Info: true, Cols: pbfgen.ColsMask(0b100001), Nodes: []pbfgen.DNode{dnode(31, 0), dnode(32, 0)}}}
-	y := &pbfgen.File{Header: pbfgen.StdHeader(), Blocks: []pbfgen.Block{
-		{Groups: []pbfgen.Group{
-			fullDense(dnode(1, 3), dnode(2, 1)),
-			{Ways: []pbfgen.Way{way(10, 2, 3, true, true), way(11, 0, 1, false, false)}},
-			{Relations: []pbfgen.Relation{rel(20, 2, 2, true), rel(21, 0, 1, false)}},
-			noKV,
-			{Ways: []pbfgen.Way{way(12, 0, 0, false, false), way(13, 1, 2, false, true)}},
-			{Relations: []pbfgen.Relation{rel(22, 0, 0, false), rel(23, 1, 3, true)}},
-		}},
-		{Groups: []pbfgen.Group{{Ways: []pbfgen.Way{way(14, 0, 2, false, false)}}, fullDense(dnode(3, 0), dnode(4, 2))}},
-	}}
-	// no metadata anywhere
-	z := &pbfgen.File{Header: pbfgen.StdHeader(), Blocks: []pbfgen.Block{
-		{Groups: []pbfgen.Group{{Dense: &pbfgen.Dense{KeysVals: true, Nodes: []pbfgen.DNode{dnode(1, 1), dnode(2, 2), dnode(3, 0), dnode(4, 0), dnode(5, 3)}}}}},
-		{Groups: []pbfgen.Group{{Ways: []pbfgen.Way{way(10, 0, 3, false, false), way(11, 2, 0, false, false), way(12, 0, 1, true, false), way(13, 1, 4, false, false)}}}},
-		{Groups: []pbfgen.Group{{Relations: []pbfgen.Relation{rel(20, 0, 2, false), rel(21, 2, 0, false), rel(22, 0, 0, false), rel(23, 1, 1, false)}}}},
-	}}
-	// the three-block file again with 200 unused string-table entries first: every
-	// string id in keys_vals, keys, vals, roles and user_sid needs a 2-byte varint
-	// (the dense-node tag pre-count works on raw bytes)
-	wf := &pbfgen.File{Header: pbfgen.StdHeader()}
-	extra := make([]string, 200)
-	for i := range extra {
-		extra[i] = fmt.Sprintf("unused%d", i)
-	}
-	for _, b := range x.Blocks {
-		b.ExtraStrings = extra
-		wf.Blocks = append(wf.Blocks, b)
-	}
-	return map[string]*pbfgen.File{"X-three-blocks": x, "Y-one-block-mixed": y, "Z-no-metadata": z, "W-large-string-table": wf},
-		[]string{"X-three-blocks", "Y-one-block-mixed", "Z-no-metadata", "W-large-string-table"}
-}
-
-func want(f *pbfgen.File, c fcase) []osm.Object {
+func want(f *pbfgen.File, flags int, preds [3]int) []osm.Object {
 	var out []osm.Object
 	for _, o := range f.Expected() {
-		switch e := o.(type) {
-		case *osm.Node:
-			if c.Flags&1 == 0 && pred(c.Preds[0], int64(e.ID), len(e.Tags), 0) {
-				out = append(out, o)
-			}
-		case *osm.Way:
-			if c.Flags&2 == 0 && pred(c.Preds[1], int64(e.ID), len(e.Tags), len(e.Nodes)) {
-				out = append(out, o)
-			}
-		case *osm.Relation:
-			if c.Flags&4 == 0 && pred(c.Preds[2], int64(e.ID), len(e.Tags), len(e.Members)) {
-				out = append(out, o)
-			}
+		if files.Accepts(o, flags, preds) {
+			out = append(out, o)
 		}
 	}
 	return out
 }
 
 type seen struct {
-	mu    sync.Mutex
-	calls [3]int
+	calls [3]int64
 }
 
-func configure(c fcase, sn *seen) func(*osmpbf.Scanner) {
-	return func(s *osmpbf.Scanner) {
-		s.SkipNodes, s.SkipWays, s.SkipRelations = c.Flags&1 != 0, c.Flags&2 != 0, c.Flags&4 != 0
-		if p := c.Preds[0]; p != 0 {
-			s.FilterNode = func(n *osm.Node) bool {
-				sn.mu.Lock()
-				sn.calls[0]++
-				sn.mu.Unlock()
-				return pred(p, int64(n.ID), len(n.Tags), 0)
-			}
-		}
-		if p := c.Preds[1]; p != 0 {
-			s.FilterWay = func(w *osm.Way) bool {
-				sn.mu.Lock()
-				sn.calls[1]++
-				sn.mu.Unlock()
-				return pred(p, int64(w.ID), len(w.Tags), len(w.Nodes))
-			}
-		}
-		if p := c.Preds[2]; p != 0 {
-			s.FilterRelation = func(rl *osm.Relation) bool {
-				sn.mu.Lock()
-				sn.calls[2]++
-				sn.mu.Unlock()
-				return pred(p, int64(rl.ID), len(rl.Tags), len(rl.Members))
-			}
+func (sn *seen) total() int64 {
+	return atomic.LoadInt64(&sn.calls[0]) + atomic.LoadInt64(&sn.calls[1]) + atomic.LoadInt64(&sn.calls[2])
+}
+
+func configure(s *osmpbf.Scanner, flags int, preds [3]int, sn *seen) {
+	s.SkipNodes, s.SkipWays, s.SkipRelations = flags&1 != 0, flags&2 != 0, flags&4 != 0
+	if p := preds[0]; p != 0 {
+		s.FilterNode = func(n *osm.Node) bool {
+			atomic.AddInt64(&sn.calls[0], 1)
+			return files.Pred(p, n)
 		}
 	}
+	if p := preds[1]; p != 0 {
+		s.FilterWay = func(w *osm.Way) bool {
+			atomic.AddInt64(&sn.calls[1], 1)
+			return files.Pred(p, w)
+		}
+	}
+	if p := preds[2]; p != 0 {
+		s.FilterRelation = func(rl *osm.Relation) bool {
+			atomic.AddInt64(&sn.calls[2], 1)
+			return files.Pred(p, rl)
+		}
+	}
+}
+
+// countingReader lets the lazy consumer see whether the input is still being read.
+type countingReader struct {
+	r *bytes.Reader
+	n int64
+}
+
+func (c *countingReader) Read(p []byte) (int, error) {
+	n, err := c.r.Read(p)
+	atomic.AddInt64(&c.n, int64(n))
+	return n, err
+}
+
+// quiesce returns once neither the reader position nor the number of filter
+// calls has moved for a few polls: the decoders are as far ahead of the
+// consumer as the pipeline lets them get. Only makes the interesting situation
+// likely; nothing is judged by it.
+func quiesce(rd *countingReader, sn *seen) {
+	last, still := int64(-1), 0
+	for i := 0; i < 120 && still < 4; i++ {
+		time.Sleep(150 * time.Microsecond)
+		now := atomic.LoadInt64(&rd.n)*1000003 + sn.total()
+		if now == last {
+			still++
+		} else {
+			still = 0
+		}
+		last = now
+	}
+}
+
+type scanOut struct {
+	objs      []osm.Object
+	atReturn  string // first difference between an object and its expectation at the moment it was returned
+	herr, err error
+	stopped   bool
+}
+
+func scan(data []byte, procs, flags int, preds [3]int, consumer int, sn *seen, w []osm.Object) scanOut {
+	rd := &countingReader{r: bytes.NewReader(data)}
+	s := osmpbf.New(context.Background(), rd, procs)
+	configure(s, flags, preds, sn)
+	var out scanOut
+	if consumer != lazy {
+		_, out.herr = s.Header() // the lazy consumer starts with Scan
+	}
+	limit := -1
+	if consumer == stopEarly {
+		limit = (len(w) + 1) / 2
+	}
+	for len(out.objs) != limit && s.Scan() {
+		o := s.Object()
+		i := len(out.objs)
+		out.objs = append(out.objs, o)
+		if out.atReturn == "" {
+			if i >= len(w) {
+				out.atReturn = fmt.Sprintf("object %d (%v) beyond the %d expected", i, files.IDs([]osm.Object{o}), len(w))
+			} else if d := pbfgen.DiffObject(o, w[i]); d != "" {
+				out.atReturn = fmt.Sprintf("object %d: %s", i, d)
+			}
+		}
+		if consumer == lazy && (i == 0 || i == len(w)/2) {
+			quiesce(rd, sn)
+		}
+		if len(out.objs) > len(w)+8 {
+			break // a scan that does not end
+		}
+	}
+	if len(out.objs) == limit {
+		out.stopped = true
+	} else {
+		out.err = s.Err()
+	}
+	s.Close()
+	return out
+}
+
+// combos of predicates for the restricted products
+func extCombos() (ext, base [][3]int) {
+	for p := 7; p <= 12; p++ {
+		ext = append(ext, [3]int{p, p, p}, [3]int{p, 0, 0}, [3]int{0, p, 0}, [3]int{0, 0, p}, [3]int{p, 2, 2}, [3]int{2, p, 2}, [3]int{2, 2, p})
+	}
+	for p := 13; p <= 14; p++ {
+		ext = append(ext, [3]int{p, p, p}, [3]int{p, 0, 0}, [3]int{0, p, 0}, [3]int{0, 0, p})
+	}
+	ext = append(ext, [3]int{7, 9, 11}, [3]int{8, 10, 12}, [3]int{9, 11, 8}, [3]int{10, 12, 7}, [3]int{3, 9, 7}, [3]int{9, 4, 5}, [3]int{5, 7, 9}, [3]int{12, 8, 10}, [3]int{13, 14, 13}, [3]int{14, 13, 7})
+	for p := 0; p <= 5; p++ {
+		base = append(base, [3]int{p, p, p})
+	}
+	base = append(base, [3]int{3, 4, 5}, [3]int{4, 5, 3}, [3]int{5, 3, 4}, [3]int{2, 1, 3}, [3]int{1, 3, 2}, [3]int{3, 2, 1})
+	return
+}
+
+// extLive: at least one kind with one of the pattern predicates is not skipped
+// (otherwise the case behaves like one of the full product).
+func extLive(flags int, preds [3]int) bool {
+	for k := 0; k < 3; k++ {
+		if preds[k] >= 7 && flags&(1<<uint(k)) == 0 {
+			return true
+		}
+	}
+	return false
 }
 
 func main() {
@@ -205,31 +206,174 @@ func main() {
 			np = 7
 			procs = []int{1, 2, 3, 8}
 		}
-		r.Rule(fmt.Sprintf("files x 8 skip-flag sets x %d^3 per-kind predicates (%v) x procs %v, full product; non-trivial = at least one element rejected and at least one accepted; distinct = (file,flags,preds,procs)", np, predNames[:np], procs))
-		r.Assume("predicates are pure functions of (id, #tags, #refs/#members) and never retain their argument")
-		fs, names := files()
+		r.Rule(fmt.Sprintf("family full: files X,Y,Z,W x 8 skip-flag sets x %d^3 per-kind predicates (%v) x procs %v, full product (thorough: also on the 14-block file). "+
+			"Restricted products use the pattern predicates %v (hash-* = one bit of a hash over every field of the element as the filter sees it) as (p,p,p), p on one kind with nil or reject-all on the others, and mixed triples ('ext', only with a pattern-filtered kind not skipped) and 12 triples of the first six predicates ('base'): "+
+			"family ext = X,Y,Z x ext x 8 flag sets x procs (quick: Y procs 1,3; Z procs 1); grouped = files of 14 and 45 blocks (thorough also 120) with 0-6 primitive groups per block (ids aligned so that bit2/not-bit2 reject one whole group and accept the next, mod3-* give reject-accept-accept runs across group and block borders) x (ext+base) x 8 x procs x consumer (14 blocks: eager (quick: procs 1,3), and lazy with one decoder; 45 blocks: lazy = lets the decoders run as far ahead as the pipeline allows after the first object and at the middle; thorough: both everywhere); "+
+			"edges = one file of absent / present-but-empty / delimiter-only tag, node and member lists, empty dense group, empty group, empty block, changeset groups, >=128 tags/nodes/members, ids 0, negative, 2^31, 2^40+1, 2^53+1, empty/blank/non-ASCII/long strings x (ext+base) x 8 x procs {1,3} (thorough: all); wide3 = 3-byte string ids x (ext+base) x 8 (quick: flags 0,1,6) x procs 1; "+
+			"big = a block of 8001 nodes; nohdr = X and the 14-block file without header block; procs = decoder counts 0,-1,4,5,6,10,11,12,16,34 x 4 triples x flags {0,1,6} on X and the 14-block file (lazy on the 45-block file for 0,4,5,6,10,11); stop = consumer closes the scanner after half of the expected objects and keeps them; twin = two scanners with different predicates on the same bytes at the same time. "+
+			"Objects are compared when returned and again after the scan. non-trivial = at least one element rejected and at least one accepted; distinct = (file,flags,preds,procs,consumer,twin)", np, files.PredNames[:np], procs, files.PredNames[7:]))
+		r.Assume("predicates are pure functions of the element's content and never retain their argument")
+		r.Note("not judged: what happens when the consumer writes into a returned object (append to its Tags etc.) - the property only speaks about the scanner modifying returned objects; filters that retain or modify their argument; skip flags or filters changed while a scan runs")
+		fs, names := files.Base()
 		var cases []fcase
-		if r.ReplayPath != "" {
-			var c fcase
-			r.LoadReplay(&c)
+		fams := map[string]int{}
+		add := func(c fcase) {
 			cases = append(cases, c)
-		} else {
-			for _, n := range names {
-				for flags := 0; flags < 8; flags++ {
-					for a := 0; a < np; a++ {
-						for b := 0; b < np; b++ {
-							for c := 0; c < np; c++ {
-								for _, p := range procs {
-									if n == "W-large-string-table" && p != 1 {
-										continue // about varint widths, not about decoder counts
-									}
-									cases = append(cases, fcase{FileName: n, Flags: flags, Preds: [3]int{a, b, c}, Procs: p})
+			f := c.Fam
+			if f == "" {
+				f = "full"
+			}
+			fams[f]++
+		}
+		for _, n := range names {
+			for flags := 0; flags < 8; flags++ {
+				for a := 0; a < np; a++ {
+					for b := 0; b < np; b++ {
+						for c := 0; c < np; c++ {
+							for _, p := range procs {
+								if n == "W-large-string-table" && p != 1 {
+									continue // about varint widths, not about decoder counts
 								}
+								add(fcase{FileName: n, Flags: flags, Preds: [3]int{a, b, c}, Procs: p})
 							}
 						}
 					}
 				}
 			}
+		}
+		// ---- boundary families ----
+		if !r.Quick() {
+			for flags := 0; flags < 8; flags++ {
+				for a := 0; a < np; a++ {
+					for b := 0; b < np; b++ {
+						for c := 0; c < np; c++ {
+							for _, p := range []int{1, 3} {
+								add(fcase{FileName: "G-14-blocks-grouped", Flags: flags, Preds: [3]int{a, b, c}, Procs: p})
+							}
+						}
+					}
+				}
+			}
+		}
+		fs["G-14-blocks-grouped"] = files.Grouped(14)
+		fs["H-45-blocks-grouped"] = files.Grouped(45)
+		fs["E-edge-elements"] = files.Edges()
+		fs["W3-three-byte-string-ids"] = files.Wide3()
+		fs["B-8001-nodes-block"] = files.Big()
+		fs["X-no-header"] = files.NoHeader(fs["X-three-blocks"])
+		fs["G-14-no-header"] = files.NoHeader(fs["G-14-blocks-grouped"])
+		names = append(names, "G-14-blocks-grouped", "H-45-blocks-grouped", "E-edge-elements", "W3-three-byte-string-ids", "B-8001-nodes-block", "X-no-header", "G-14-no-header")
+		if !r.Quick() {
+			fs["K-120-blocks-grouped"] = files.Grouped(120)
+			names = append(names, "K-120-blocks-grouped")
+		}
+		ext, base := extCombos()
+		if !r.Quick() {
+			base = append(base, [3]int{6, 6, 6}, [3]int{6, 9, 7}, [3]int{10, 6, 12})
+		}
+		restricted := func(fam, file string, withBase bool, ps []int, consumers []int) {
+			for flags := 0; flags < 8; flags++ {
+				if fam == "wide3" && r.Quick() && flags != 0 && flags != 1 && flags != 6 {
+					continue
+				}
+				for _, pr := range ext {
+					if !extLive(flags, pr) {
+						continue
+					}
+					for _, p := range ps {
+						for _, cm := range consumers {
+							add(fcase{FileName: file, Flags: flags, Preds: pr, Procs: p, Consumer: cm, Fam: fam})
+						}
+					}
+				}
+				if !withBase {
+					continue
+				}
+				for _, pr := range base {
+					for _, p := range ps {
+						for _, cm := range consumers {
+							add(fcase{FileName: file, Flags: flags, Preds: pr, Procs: p, Consumer: cm, Fam: fam})
+						}
+					}
+				}
+			}
+		}
+		quickProcs := procs
+		if r.Quick() {
+			quickProcs = []int{1, 3}
+		}
+		restricted("ext", "X-three-blocks", false, procs, []int{eager})
+		restricted("ext", "Y-one-block-mixed", false, quickProcs, []int{eager})
+		// 14 blocks: one decoder can be at most 13 blocks ahead of the consumer; 45 blocks: >= 14 per decoder for 3 decoders
+		restricted("grouped", "G-14-blocks-grouped", true, quickProcs, []int{eager})
+		restricted("grouped", "G-14-blocks-grouped", true, []int{1}, []int{lazy})
+		restricted("grouped", "H-45-blocks-grouped", true, procs, []int{lazy})
+		restricted("edges", "E-edge-elements", true, quickProcs, []int{eager})
+		if r.Quick() {
+			restricted("ext", "Z-no-metadata", false, []int{1}, []int{eager})
+		} else {
+			restricted("ext", "Z-no-metadata", false, procs, []int{eager})
+			restricted("grouped", "H-45-blocks-grouped", true, procs, []int{eager})
+			restricted("grouped", "K-120-blocks-grouped", true, procs, []int{eager, lazy})
+		}
+		restricted("wide3", "W3-three-byte-string-ids", true, []int{1}, []int{eager})
+		few := [][3]int{{3, 3, 3}, {4, 5, 7}, {9, 10, 2}, {0, 0, 0}}
+		// decoder counts: < 1 means one decoder; the channel capacities 10/n are 2 for 4 and 5,
+		// 1 for 6..10 and 0 (unbuffered) from 11
+		for _, n := range []string{"X-three-blocks", "G-14-blocks-grouped"} {
+			for _, p := range []int{0, -1, 4, 5, 6, 10, 11, 12, 16, 34} {
+				for _, pr := range few {
+					for _, flags := range []int{0, 1, 6} {
+						add(fcase{FileName: n, Flags: flags, Preds: pr, Procs: p, Fam: "procs"})
+					}
+				}
+			}
+		}
+		for _, p := range []int{0, 4, 5, 6, 10, 11} {
+			for _, pr := range few {
+				add(fcase{FileName: "H-45-blocks-grouped", Preds: pr, Procs: p, Consumer: lazy, Fam: "procs"})
+			}
+		}
+		// a block of more objects than the decoder's result slice holds at first
+		for _, pr := range append(few, [3]int{7, 7, 7}, [3]int{13, 14, 13}) {
+			for _, flags := range []int{0, 2} {
+				for _, p := range []int{1, 2} {
+					add(fcase{FileName: "B-8001-nodes-block", Flags: flags, Preds: pr, Procs: p, Consumer: lazy, Fam: "big"})
+				}
+			}
+		}
+		// no header block: the first data block is handed to decoder 0 outside the round-robin loop
+		for _, n := range []string{"X-no-header", "G-14-no-header"} {
+			for _, pr := range append(few, [3]int{7, 7, 7}, [3]int{14, 13, 14}) {
+				for _, flags := range []int{0, 1, 6} {
+					for _, p := range []int{1, 2, 3} {
+						add(fcase{FileName: n, Flags: flags, Preds: pr, Procs: p, Consumer: p % 2, Fam: "nohdr"})
+					}
+				}
+			}
+		}
+		for _, n := range []string{"X-three-blocks", "Y-one-block-mixed", "G-14-blocks-grouped"} {
+			for _, pr := range append(few, [3]int{7, 7, 7}) {
+				for _, flags := range []int{0, 1, 6} {
+					for _, p := range []int{1, 2, 3} {
+						add(fcase{FileName: n, Flags: flags, Preds: pr, Procs: p, Consumer: stopEarly, Fam: "stop"})
+					}
+				}
+			}
+			for _, tw := range [][2][3]int{{{3, 3, 3}, {4, 4, 4}}, {{9, 9, 9}, {10, 10, 10}}, {{7, 2, 11}, {8, 1, 12}}, {{0, 0, 0}, {2, 2, 2}}} {
+				for _, flags := range []int{0, 1, 6} {
+					for _, p := range []int{1, 2} {
+						t := tw[1]
+						add(fcase{FileName: n, Flags: flags, Preds: tw[0], Procs: p, Twin: &t, Fam: "twin"})
+					}
+				}
+			}
+		}
+		r.Set("family_counts", fams)
+		if r.ReplayPath != "" {
+			var c fcase
+			r.LoadReplay(&c)
+			cases = []fcase{c}
 		}
 		encs := map[string]*pbfgen.Encoded{}
 		for n, f := range fs {
@@ -237,38 +381,35 @@ func main() {
 		}
 		// the unfiltered scan itself (C01's claim) is the base of the comparison
 		for _, n := range names {
-			res := pbfrun.Scan(encs[n].Data, 1, nil)
-			if d := pbfgen.DiffObjects(res.Objects, fs[n].Expected()); d != "" || res.Err != nil {
-				r.Violation("unfiltered-base/"+n, fmt.Sprintf("unfiltered scan of %s differs from the model: %s err=%v", n, d, res.Err), fcase{FileName: n, Procs: 1})
+			sn := &seen{}
+			all := fs[n].Expected()
+			res := scan(encs[n].Data, 1, 0, [3]int{}, eager, sn, all)
+			d := res.atReturn
+			if d == "" {
+				d = pbfgen.DiffObjects(res.objs, all)
+			}
+			if d != "" || res.err != nil || res.herr != nil {
+				r.Violation("unfiltered-base/"+n, fmt.Sprintf("unfiltered scan of %s differs from the model: %s err=%v header err=%v", n, d, res.err, res.herr), fcase{FileName: n, Procs: 1})
 			}
 		}
 		r.ParIsolated(len(cases), func(i int) {
 			c := cases[i]
 			f := fs[c.FileName]
-			w := want(f, c)
 			all := f.Expected()
-			r.Case(fmt.Sprintf("%v", c), len(w) > 0 && len(w) < len(all))
-			if r.WantSample() && len(w) > 0 && len(w) < len(all) && c.Preds[1] > 2 {
-				r.Sample(map[string]interface{}{"file": c.FileName, "skip_flags": c.Flags, "preds": []string{predNames[c.Preds[0]], predNames[c.Preds[1]], predNames[c.Preds[2]]}, "procs": c.Procs, "expected": pbfgen.IDs(w)})
+			w := want(f, c.Flags, c.Preds)
+			nontrivial := len(w) > 0 && len(w) < len(all)
+			r.Case(c.String(), nontrivial)
+			fam := c.Fam
+			if fam == "" {
+				fam = "full"
 			}
-			sn := &seen{}
-			res := pbfrun.Scan(encs[c.FileName].Data, c.Procs, configure(c, sn))
-			fail := func(clause, msg string) {
-				r.Violation(clause, fmt.Sprintf("file=%s flags=%03b preds=%s/%s/%s procs=%d: %s", c.FileName, c.Flags,
-					predNames[c.Preds[0]], predNames[c.Preds[1]], predNames[c.Preds[2]], c.Procs, msg), c)
+			t0 := time.Now()
+			defer func() { r.Add("busy_us_"+fam, int64(time.Since(t0)/time.Microsecond)) }()
+			if r.WantSample() && nontrivial && (c.Preds[1] > 2 || c.Fam != "") {
+				r.Sample(map[string]interface{}{"family": c.Fam, "file": c.FileName, "skip_flags": c.Flags, "preds": []string{files.PredNames[c.Preds[0]], files.PredNames[c.Preds[1]], files.PredNames[c.Preds[2]]},
+					"procs": c.Procs, "consumer": consumerNames[c.Consumer], "expected": files.IDs(w)})
 			}
-			if res.Err != nil || res.HeaderErr != nil {
-				fail("scan-error", fmt.Sprintf("header err %v, scan err %v", res.HeaderErr, res.Err))
-				return
-			}
-			// compared after the scan completed: returned objects must still be intact
-			if d := pbfgen.DiffObjects(res.Objects, w); d != "" {
-				fail("subsequence/"+pbfgen.Class(d), d+fmt.Sprintf(" (got %v want %v)", pbfgen.IDs(res.Objects), pbfgen.IDs(w)))
-				return
-			}
-			// a filter of a skipped kind must not be consulted; a filter of a
-			// non-skipped kind is consulted once per element of that kind
-			var cnt [3]int
+			var cnt [3]int64
 			for _, o := range all {
 				switch o.(type) {
 				case *osm.Node:
@@ -279,19 +420,66 @@ func main() {
 					cnt[2]++
 				}
 			}
-			for k := 0; k < 3; k++ {
-				wantCalls := cnt[k]
-				if c.Flags&(1<<uint(k)) != 0 || c.Preds[k] == 0 {
-					wantCalls = 0
+			judge := func(label string, preds [3]int, w []osm.Object, res scanOut, sn *seen) {
+				fail := func(clause, msg string) {
+					r.Violation(clause, fmt.Sprintf("%s%s: %s", c, label, msg), c)
 				}
-				if sn.calls[k] != wantCalls {
-					fail(fmt.Sprintf("filter-calls/kind%d", k), fmt.Sprintf("filter for kind %d called %d times, want %d", k, sn.calls[k], wantCalls))
+				if res.err != nil || res.herr != nil {
+					fail("scan-error", fmt.Sprintf("header err %v, scan err %v", res.herr, res.err))
 					return
 				}
+				if res.atReturn != "" {
+					fail("subsequence/"+pbfgen.Class(res.atReturn), res.atReturn+fmt.Sprintf(" (got %v want %v)", files.IDs(res.objs), files.IDs(w)))
+					return
+				}
+				ww := w
+				if res.stopped {
+					ww = w[:len(res.objs)]
+				}
+				// compared again after the scan completed: returned objects must still be intact
+				if d := pbfgen.DiffObjects(res.objs, ww); d != "" {
+					clause := "modified-after-return/"
+					if len(res.objs) != len(ww) {
+						clause = "subsequence/"
+					}
+					fail(clause+pbfgen.Class(d), d+fmt.Sprintf(" (got %v want %v)", files.IDs(res.objs), files.IDs(ww)))
+					return
+				}
+				if res.stopped {
+					return // how far the decoders got before Close is schedule dependent
+				}
+				// a filter of a skipped kind must not be consulted; a filter of a
+				// non-skipped kind is consulted once per element of that kind
+				for k := 0; k < 3; k++ {
+					wantCalls := cnt[k]
+					if c.Flags&(1<<uint(k)) != 0 || preds[k] == 0 {
+						wantCalls = 0
+					}
+					if got := atomic.LoadInt64(&sn.calls[k]); got != wantCalls {
+						fail(fmt.Sprintf("filter-calls/kind%d", k), fmt.Sprintf("filter for kind %d called %d times, want %d", k, got, wantCalls))
+						return
+					}
+				}
 			}
+			data := encs[c.FileName].Data
+			if c.Twin == nil {
+				sn := &seen{}
+				judge("", c.Preds, w, scan(data, c.Procs, c.Flags, c.Preds, c.Consumer, sn, w), sn)
+				return
+			}
+			w2 := want(f, c.Flags, *c.Twin)
+			sn1, sn2 := &seen{}, &seen{}
+			var res1, res2 scanOut
+			var wg sync.WaitGroup
+			wg.Add(2)
+			go func() { defer wg.Done(); res1 = scan(data, c.Procs, c.Flags, c.Preds, lazy, sn1, w) }()
+			go func() { defer wg.Done(); res2 = scan(data, c.Procs, c.Flags, *c.Twin, eager, sn2, w2) }()
+			wg.Wait()
+			judge(" [first scanner]", c.Preds, w, res1, sn1)
+			judge(" [second scanner]", *c.Twin, w2, res2, sn2)
 		}, func(i int, what, detail string) {
 			c := cases[i]
-			r.Violation("process-"+what+"/"+kit.CrashClass(detail), fmt.Sprintf("file=%s flags=%03b preds=%v procs=%d: the scanning process ended in a %s:\n%s", c.FileName, c.Flags, c.Preds, c.Procs, what, detail), c)
+			r.Violation("process-"+what+"/"+kit.CrashClass(detail), fmt.Sprintf("%s: the scanning process ended in a %s:\n%s", c, what, detail), c)
 		})
 	})
 }
